@@ -804,7 +804,12 @@ func (l *lay) top(t *lTop) {
 		l.put("=")
 		for _, c := range t.Cases {
 			l.eol()
-			l.indent(l.amt())
+			// union cases are not tested against any column (Layout.wf_root): column 0 included
+			if l.o.Canon {
+				l.indent(2)
+			} else {
+				l.indent(l.r.Intn(9))
+			}
 			l.put("|")
 			l.gap()
 			l.words(c)
@@ -1209,17 +1214,25 @@ package_info strings =
 func c06FoiLayout(r *Rng) string {
 	var b strings.Builder
 	amt := 0
+	first := true
 	for _, line := range strings.Split(strings.TrimRight(c06MiniFoi, "\n"), "\n") {
 		switch {
 		case strings.HasPrefix(line, "package_info"):
 			amt = 1 + r.Intn(8)
+			first = true
 			b.WriteString(line)
 		case strings.TrimSpace(line) == "":
 			if r.Intn(2) == 0 {
 				b.WriteString("   ")
 			}
 		default:
-			b.WriteString(strings.Repeat(" ", amt) + strings.TrimSpace(line))
+			// the first definition fixes the block's column; later ones may stand further right (Layout.wf_root)
+			a := amt
+			if !first {
+				a += r.Intn(4) * r.Intn(2)
+			}
+			first = false
+			b.WriteString(strings.Repeat(" ", a) + strings.TrimSpace(line))
 		}
 		switch r.Intn(8) {
 		case 0:
